@@ -189,6 +189,37 @@ func main() {
 			}
 			return false
 		}
+		// local variables that hold a copy of a slice / map header reached from the receiver or an argument
+		copies := map[ssa.Value]bool{}
+		for pass := 0; pass < 3; pass++ {
+			for _, b := range f.Blocks {
+				for _, in := range b.Instrs {
+					if st, ok := in.(*ssa.Store); ok {
+						if al, isAlloc := st.Addr.(*ssa.Alloc); isAlloc {
+							if fromParam(st.Val) {
+								copies[al] = true
+							}
+							for _, r := range root(st.Val, map[ssa.Value]bool{}) {
+								if copies[r] {
+									copies[al] = true
+								}
+							}
+						}
+					}
+				}
+			}
+		}
+		sharesWithParam := func(v ssa.Value) bool {
+			if fromParam(v) {
+				return true
+			}
+			for _, r := range root(v, map[ssa.Value]bool{}) {
+				if copies[r] {
+					return true
+				}
+			}
+			return false
+		}
 		for _, b := range f.Blocks {
 			for _, in := range b.Instrs {
 				switch x := in.(type) {
@@ -272,6 +303,11 @@ func main() {
 					}
 					if b, ok := cc.Value.(*ssa.Builtin); ok {
 						name = "builtin " + b.Name()
+						if b.Name() == "append" && len(args) > 0 && sharesWithParam(args[0]) {
+							// appending to a slice reached from the receiver or an argument writes into its backing array
+							// whenever there is spare capacity
+							paramStores[f] = append(paramStores[f], "append into a slice of the receiver / an argument")
+						}
 						if b.Name() == "delete" && len(args) > 0 {
 							for _, g := range globalOf(args[0]) {
 								if !isInit {
